@@ -338,19 +338,25 @@ def do_replay(path, quiet=False):
     mod = load_harness(body['property'])
     spec = mod.HARNESSES[body['harness']]
     asg = {k: decode_value(v) for k, v in body['assignment'].items()}
-    cs = ConcreteSpace(asg)
     out = []
-    try:
-        spec['fn'](cs, **body['params'])
-        reproduced = False
-        out.append('replay: harness completed without violation (NOT reproduced)')
-    except Violation as v:
-        reproduced = True
-        out.append('replay: violated clause %s %s' % (v.clause, v.detail))
-        out.append('        info %s' % (v.info,))
-    except Infeasible:
-        reproduced = False
-        out.append('replay: an assumption failed concretely (NOT reproduced)')
+    # reals are replayed as floats (exact on the dyadic grid) and, if that does not reproduce, as Fractions:
+    # both are exact numbers; code that treats them differently is part of what a counterexample may show
+    from fractions import Fraction
+    for real_as in (float, Fraction):
+        cs = ConcreteSpace(asg, real_as=real_as)
+        try:
+            spec['fn'](cs, **body['params'])
+            reproduced = False
+            out.append('replay (%s reals): harness completed without violation (NOT reproduced)' % real_as.__name__)
+        except Violation as v:
+            reproduced = True
+            out.append('replay (%s reals): violated clause %s %s' % (real_as.__name__, v.clause, v.detail))
+            out.append('        info %s' % (v.info,))
+        except Infeasible:
+            reproduced = False
+            out.append('replay (%s reals): an assumption failed concretely (NOT reproduced)' % real_as.__name__)
+        if reproduced or not any(isinstance(x, Fraction) for x in asg.values()):
+            break
     out.append('trace:')
     out.extend('   ' + t for t in cs.trace[-60:])
     return reproduced, '\n'.join(out)
